@@ -292,6 +292,9 @@ func TestVerif_Forced(t *testing.T) {
 						continue
 					}
 					rng := r.Rand(idx)
+					if r.Violations() >= 3 {
+						continue // fail fast: every stuck probe costs its full timeout
+					}
 					sc := scenario{Kind: kind, Point: p, AbortA: abortA, TwoTab: rng.IntN(2) == 0}
 					r.LogCase(idx)
 					key, msg, reached := runScenario(ctl, idx, sc)
